@@ -3,7 +3,8 @@
 Implementation side (harness/loadtree.py): a generated load tree (1..5 model files
 importing each other with ImportURI, cached re-imports, cycles) over a fixed grammar
 with user classes in the variants plain / __slots__ / frozen dataclass / own
-__setattr__ / own __getattribute__ / own all three / inherited __setattr__; every
+__setattr__ / own __getattribute__ / own all three / inherited __setattr__ / own
+__getattr__; every
 user-code call point (match-rule processor, pre-resolution callback, scope provider,
 __init__, object processor, model processor) logs an event with a snapshot of
 `_tx_instrumented`, the three replaced methods, the `_tx_real_*` cache and
@@ -12,7 +13,11 @@ metamodel; failure swallowed or not) and may raise.  The fault table (none, synt
 error main / imported, match-rule processor, callback, unknown reference, provider
 exception, unresolvable postponed reference, __init__ exception / TypeError, object
 processor, model processor main / imported, propagating nested failure) is cycled
-through completely.  The same tree is run by the Lean machine (Drivers/LoadTree.lean).
+through completely.  User code that gets hold of objects whose constructor is still
+postponed (callback, scope provider, model processor of an imported file, constructor
+of a child or of a referring object) stores attributes on them (names unknown to the
+grammar, attributes of other rules, `_tx_`-like names, a grammar attribute of the
+object again, `parent` on a root object) and deletes them again (60% of the main load trees, 1..4 stores each).  The same tree is run by the Lean machine (Drivers/LoadTree.lean).
 """
 from harness import loadtree as lt
 from harness.core import Check
@@ -20,7 +25,7 @@ from harness.core import Check
 THEOREMS = [
     "LoadTree.C14_restored", "LoadTree.C14_restored_env", "LoadTree.C14_restored_clean", "LoadTree.C14_calls",
     "LoadTree.C14_init_once", "LoadTree.C14_init_at_most_once", "LoadTree.C14_init_order", "LoadTree.C14_kwargs",
-    "LoadTree.C14_unbalanced_false",
+    "LoadTree.C14_kwargs_ops", "LoadTree.C14_kwargs_pinned_false", "LoadTree.C14_unbalanced_false",
 ]
 CLEAN = [0, False, False, 0]
 
@@ -64,7 +69,8 @@ def class_state_failure(case, obs):
         if not same:
             return f"after loading, the __dict__ of user class {c['rule']} ({c['variant']}) differs from before"
         if beh is not True:
-            return f"after loading, {c['rule']}.__setattr__ is not the class's own ({beh})"
+            what = "__getattr__" if c["variant"] == "own_getattr" else "__setattr__"
+            return f"after loading, {c['rule']}.{what} is not the class's own ({beh})"
     return None
 
 
@@ -75,15 +81,24 @@ class Prop(Check):
     DRIVER = "Drivers/LoadTree.lean"
     QUICK_CASES = 420
     THOROUGH_CASES = 7000
-    RULE = ("load trees of 1..5 files x user classes (7 variants, none, subsets of 5 rules) x complete fault table "
-            "(14 entries, cycled) x nested loads from user code (40%) x immutable root (6%) x global repository (10%); "
+    RULE = ("load trees of 1..5 files x user classes (8 variants, none, subsets of 5 rules) x complete fault table "
+            "(14 entries, cycled) x nested loads from user code (40%) x immutable root (6%) x global repository (10%) x "
+            "metamodel without object processors (20%) x "
+            "stores / deletions of user code on objects under construction (60% of the main trees, 40% of the nested: "
+            "1..4 stores from callback / scope provider / imported model processor / another constructor; names: "
+            "non-grammar, other rule's attribute, own grammar attribute, parent on a root (from a child's constructor); "
+            "20% deleted again); "
             "non-trivial = a user class was instrumented and (a constructor ran or the load failed after instrumenting)")
     MODELLED = ("hand-modelled (TextxVerif/LoadTree.lean): model.py get_model_from_str, _replace/_restore_user_attr_methods, "
                 "_discard_user_obj_attrs, process_node (user objects), parse_tree_to_objgraph (callback, imports, resolution, "
                 "_end_model_construction, object processors, both failure handlers), _abort_model_construction; tie X: outcome, "
-                "every user-code call with instrumentation snapshots of all user classes, final class states, kwargs keys; "
+                "every user-code call with instrumentation snapshots of all user classes, final class states, kwargs keys "
+                "(Kw.collectedOps: textX's stores, then the stores / deletions user code applied to the object before its "
+                "constructor ran, then the filter); "
                 "not exhibited: attribute values (checked by the direct oracle only), repositories (C17/C18), CPython's GC")
     ASSUMPTIONS = [
+        "user code does not delete grammar attributes / the `parent` of a contained object while the object is under "
+        "construction (C14_kwargs_ops: Op.harmless); it may store anything, also `parent` on a root object",
         "nested loads started by user code leave the classes as they found them (proved for loads of the table: runF_frame)",
         "object ids are fresh (allocator counter); a key of _tx_obj_attrs belongs to a live object",
         "scope-provider calls of later resolution rounds are not modelled (the harness logs the first call per reference)",
@@ -100,7 +115,9 @@ class Prop(Check):
         return lt.run_case(case, probe=self.PROBE)
 
     def kw_queries(self, obs):
-        return [(rule, rule != "Model") for pid, lab, rule, kws in obs["inits"] if pid >= 0]
+        stores = lt.stores_before_init(obs)
+        return [(rule, rule != "Model", [[op == "set", name] for op, name, _ in st])
+                for (pid, lab, rule, kws), st in zip(obs["inits"], stores) if pid >= 0]
 
     def model_req(self, case, obs):
         return lt.lean_request(case, kw=self.kw_queries(obs))
@@ -112,8 +129,7 @@ class Prop(Check):
         inits = [x for x in obs["inits"] if x[0] >= 0]
         for (pid, lab, rule, kws), keys in zip(inits, out.get("kw", [])):
             got = [k for k, _ in kws]
-            frozen = any(c["rule"] == rule and c["variant"] == "frozen" for c in case["classes"])
-            if (sorted(got) != sorted(keys)) if frozen else (got != keys):
+            if got != keys:
                 return f"__init__ of {rule} (label {lab}): implementation passed {got}, model {keys}"
         return None
 
@@ -138,7 +154,8 @@ class Prop(Check):
                 if seen.get(key, 0) != 1:
                     return f"load succeeded but {rule} object {key[1]} of file {key[0]} was initialised {seen.get(key, 0)} times"
         # exactly the rule's attributes (+ parent when contained), references resolved
-        for pid, lab, rule, kws in obs["inits"]:
+        stores = lt.stores_before_init(obs)
+        for (pid, lab, rule, kws), st in zip(obs["inits"], stores):
             want = set(lt.RULE_ATTRS[rule]) | (set() if rule == "Model" else {"parent"})
             got = [k for k, _ in kws]
             if set(got) != want or len(got) != len(want):
@@ -149,7 +166,11 @@ class Prop(Check):
                 if k == "more" and any(x[0] != "obj" for x in v[1:]):
                     return f"__init__ of {rule} {lab}: reference list {k} holds unresolved entries {v}"
             if obs["ok"] and (pid, lab) in expected:
-                exp = expected[(pid, lab)][1]
+                exp = dict(expected[(pid, lab)][1])
+                for op, name, val in st:
+                    # user code stored a grammar attribute of the object again before the constructor ran
+                    if op == "set" and name in exp and name != "parent":
+                        exp[name] = ["int", val]
                 for k, v in kws:
                     if exp.get(k) != v:
                         return f"__init__ of {rule} {lab}: {k}={v}, the model text says {exp.get(k)}"
@@ -178,7 +199,8 @@ class Prop(Check):
     def sample_view(self, case, obs):
         return {"fault": case.get("fault"), "classes": case["classes"], "files": sum(1 for _ in lt.walk_nodes(case["loads"][0])),
                 "nested_loads": len(case["loads"]) - 1, "ok": obs.get("ok"), "exc": obs.get("exc"),
-                "events": len(obs.get("events", [])), "inits": len(obs.get("inits", [])), "final": obs.get("final")}
+                "events": len(obs.get("events", [])), "inits": len(obs.get("inits", [])), "final": obs.get("final"),
+                "stores_by_user_code": len(obs.get("anns", []))}
 
     def shrink(self, case):
         yield from lt.shrink_case(case)
@@ -196,8 +218,32 @@ class Prop(Check):
         for c in cases:
             for cl in c["classes"]:
                 variants[cl["variant"]] = variants.get(cl["variant"], 0) + 1
+        ann = {"cases_with_stores": 0, "applied": 0, "not_applied": 0, "by_hook": {}, "by_name": {},
+               "constructor_calls_after_a_store_on_the_object": 0, "of_these_own_attribute_again": 0, "with_deletion": 0}
+        for c, o in zip(cases, obs):
+            if not (isinstance(o, dict) and "ok" in o):
+                continue
+            kinds = {}
+            for n0 in c["loads"]:
+                for n in lt.walk_nodes(n0):
+                    for kind, h in lt.all_hooks(n):
+                        if h.get("ann"):
+                            kinds[h["lab"], lt.KIND[kind]] = kind
+            ann["cases_with_stores"] += bool(o.get("anns"))
+            for a in o.get("anns", []):
+                ann["applied" if a[4] else "not_applied"] += 1
+                if a[4]:
+                    ann["by_name"][a[2]] = ann["by_name"].get(a[2], 0) + 1
+                    k = lt.KIND_NAME[o["events"][a[0]][0]]
+                    ann["by_hook"][k] = ann["by_hook"].get(k, 0) + 1
+            for (pid, lab, rule, kws), st in zip(o["inits"], lt.stores_before_init(o)):
+                if st:
+                    ann["constructor_calls_after_a_store_on_the_object"] += 1
+                    ann["of_these_own_attribute_again"] += any(n in lt.RULE_ATTRS[rule] for _, n, _ in st)
+                    ann["with_deletion"] += any(op == "del" for op, _, _ in st)
         multi = sum(1 for c in cases if len(list(lt.walk_nodes(c["loads"][0]))) > 1)
         nested = sum(1 for c in cases if len(c["loads"]) > 1)
         return {"distribution": {"fault:outcome": dist, "class_variants": variants, "multi_file": multi,
+                                 "stores_by_user_code": ann,
                                  "with_nested_loads": nested,
                                  "max_counter_seen": max([s[0] for o in obs if isinstance(o, dict) for e in o.get("events", []) for s in e[3]] or [0])}}
